@@ -1,29 +1,35 @@
 (* WriteIntRanges (c_helpers.cc) and the enum variant (c_enum.cc): the range
-   table the generator emits for a strictly increasing list of numbers. *)
+   table the generator emits for a strictly increasing list of numbers.
+   Written as a right fold (a run is extended leftwards), which yields the same
+   table as the generator's left-to-right loop; the tie compares the emitted
+   tables with this function on every run. *)
 From Coq Require Import ZArith List Bool.
 From PBC Require Import Base.CInt.
 Import ListNotations.
 Local Open Scope Z_scope.
 
-(* [cur_start, cur_idx]: first value / first index of the run being built;
-   [prev]: the previous value; [i]: index of the next value *)
-Fixpoint mk_ranges_aux (vs : list Z) (cur_start cur_idx prev i : Z) : list IntRange :=
+Definition mkr (s o : Z) : IntRange := {| start_value := s; orig_index := o |}.
+
+(* table for the values vs, the first of which has index i *)
+Fixpoint mk_ranges_from (vs : list Z) (i : Z) : list IntRange :=
   match vs with
-  | [] => [ {| start_value := cur_start; orig_index := cur_idx |};
-            {| start_value := 0; orig_index := i |} ]
+  | [] => [mkr 0 i]
   | v :: t =>
-      if prev + 1 =? v then mk_ranges_aux t cur_start cur_idx v (i + 1)
-      else {| start_value := cur_start; orig_index := cur_idx |} :: mk_ranges_aux t v i v (i + 1)
+      let r := mk_ranges_from t (i + 1) in
+      match t, r with
+      | w :: _, _ :: r' => if v + 1 =? w then mkr v i :: r' else mkr v i :: r
+      | _, _ => mkr v i :: r
+      end
   end.
 
-(* the table and n_ranges *)
+(* the table and n_ranges; no values: NULL table, 0 ranges *)
 Definition mk_ranges (vs : list Z) : list IntRange * Z :=
   match vs with
   | [] => ([], 0)
-  | v :: t => let r := mk_ranges_aux t v 0 v 1 in (r, Z.of_nat (length r) - 1)
+  | _ => let r := mk_ranges_from vs 0 in (r, Z.of_nat (length r) - 1)
   end.
 
-(* enum values sorted by number, aliases removed (first of each number kept) *)
+(* enum values sorted by number, aliases removed *)
 Fixpoint dedup_sorted (vs : list Z) : list Z :=
   match vs with
   | [] => []
